@@ -95,6 +95,13 @@ def run_case(case, ctx):
         d = full_diff(full(R), full(H))
         ctx.check(not d, ("roundtrip", "hif_dict", "+".join(d), cls), lambda: "got %r expected %r" % (full(R), full(H)))
 
+    # the documented casts of the HIF reader: str() of every label
+    ok, R = attempt(ctx, "hif_dict-str-casts", lambda: xgi.from_hif_dict(xgi.to_hif_dict(H), nodetype=str, edgetype=str))
+    if ok and len({str(n) for n in nodes}) == len(nodes) and len({str(e) for e in edges}) == len(edges):
+        got = {(a, b) + tuple(r) for a, b, *r in inc(R)}
+        want = {(str(a), str(b)) + tuple(r) for a, b, *r in I}
+        ctx.check(got == want and set(R.nodes) == {str(n) for n in nodes} and set(R.edges) == {str(e) for e in edges}, ("roundtrip", "hif_dict", "str-casts", cls), lambda: "got %r expected %r" % (got, want))
+
     # ---- bipartite graph (index maps), also with shuffled vertex insertion order / edge orientation
     if cls != "SC" or True:
         ok, r = attempt(ctx, "to_bipartite_graph", lambda: xgi.to_bipartite_graph(H, index=True))
@@ -108,6 +115,14 @@ def run_case(case, ctx):
                     got = {(nd[a], ed[b]) for a, b in inc(R)}
                 ctx.check(got == I, ("roundtrip", "bipartite_graph", "incidences", cls), lambda: "got %r expected %r" % (got, I))
                 ctx.check({nd[a] for a in R.nodes} == set(nodes), ("roundtrip", "bipartite_graph", "node-set", cls), "")
+            if cls != "DH":
+                ok, Rd = attempt(ctx, "from_bipartite_graph-dual", lambda: xgi.from_bipartite_graph(G, dual=True))
+                if ok:
+                    try:
+                        got = {(nd[b], ed[a]) for a, b in inc(Rd)}
+                    except KeyError as e:
+                        got = "role swap: %r" % (e.args[0],)
+                    ctx.check(got == I, ("roundtrip", "bipartite_graph", "dual-incidences", cls), lambda: "got %r expected the dual of %r" % (got, I))
             # insertion order / orientation must not matter
             G2 = nx.DiGraph() if G.is_directed() else nx.Graph()
             G2.add_nodes_from(shuffled(list(G.nodes(data=True)), keys, 1))
@@ -169,6 +184,12 @@ def run_case(case, ctx):
             ok, R = attempt(ctx, "from_bipartite_pandas_dataframe", lambda: xgi.from_bipartite_pandas_dataframe(df, node_column="Node ID", edge_column="Edge ID"))
             if ok:
                 ctx.check(inc(R) == I, ("roundtrip", "pandas", "by-column-name", cls), lambda: "got %r expected %r" % (inc(R), I))
+            ok, R = attempt(ctx, "from_bipartite_pandas_dataframe-positional", lambda: xgi.from_bipartite_pandas_dataframe(df))
+            if ok:
+                ctx.check(inc(R) == I, ("roundtrip", "pandas", "by-position", cls), lambda: "got %r expected %r" % (inc(R), I))
+            ok, R = attempt(ctx, "from_bipartite_pandas_dataframe-swapped", lambda: xgi.from_bipartite_pandas_dataframe(df[["Edge ID", "Node ID"]], node_column=1, edge_column=0))
+            if ok:
+                ctx.check(inc(R) == I, ("roundtrip", "pandas", "swapped-columns-by-position", cls), lambda: "got %r expected %r" % (inc(R), I))
             ok, R = attempt(ctx, "Hypergraph(df)", lambda: xgi.Hypergraph(df))
             if ok:
                 ctx.check(inc(R) == I, ("roundtrip", "pandas", "constructor", cls), lambda: "got %r expected %r" % (inc(R), I))
